@@ -76,6 +76,9 @@ def gen_spec(rng, fits=False):
     if fits:
         spec["nops"] = rng.randint(12, 20)
         spec["rungs"] = 0
+        if spec["searcher"] == "hypertune":
+            # HyperTune's independent-GP surrogate only accepts data at rung levels (documented restriction)
+            spec["searcher_data"] = "rungs"
     return spec
 
 
